@@ -563,13 +563,16 @@ class MinFlowDecomp(pathmodel.AbstractPathModelDAG): # Note that we inherit from
 
         self._lowerbound_k = self.optimization_options.get("lowerbound_k", 1)
 
-        all_weights = set({int(self.G.edges[e][self.flow_attr]) for e in self.G.edges() if self.flow_attr in self.G.edges[e]})
+        ignored = set(self.edges_to_ignore)
+        all_weights = set({int(self.G.edges[e][self.flow_attr]) for e in self.G.edges() if self.flow_attr in self.G.edges[e] and e not in ignored})
         
-        self._lowerbound_k = max(self._lowerbound_k, math.ceil(math.log2(len(all_weights))))
+        if len(all_weights) > 0:
+            self._lowerbound_k = max(self._lowerbound_k, math.ceil(math.log2(len(all_weights))))
 
         self._lowerbound_k = max(self._lowerbound_k, stG.get_width(edges_to_ignore=self.edges_to_ignore))
 
-        if self.optimization_options.get("use_min_gen_set_lowerbound", MinFlowDecomp.use_min_gen_set_lowerbound):  
+        # the generating-set bound is only valid when every edge takes part in the decomposition
+        if len(ignored) == 0 and self.optimization_options.get("use_min_gen_set_lowerbound", MinFlowDecomp.use_min_gen_set_lowerbound):  
             mingenset_lowerbound = self._get_lowerbound_with_min_gen_set()
             if mingenset_lowerbound is not None:
                 self._lowerbound_k = max(self._lowerbound_k, mingenset_lowerbound)
